@@ -18,7 +18,10 @@ def monitor (a : OpInst) (impl : String) : Option Bool :=
   match words impl with
   | [ra, unread, rb, same] =>
     match specJudge a ra with
-    | none => none
+    | none =>
+      -- framing error (body is not an encoding of the layout): detected → A and B fail; or skipped harmlessly
+      -- while reporting a broker error → nothing unread, B as fresh.  Never "ok".
+      some ((isFailStr ra && isFailStr rb) || (ra.startsWith "kafka:" && unread == "0" && same == "same"))
     | some okA =>
       some (okA && isDone ra && isDone rb &&
         (if isFailStr ra then isFailStr rb else unread == "0" && same == "same"))
@@ -45,8 +48,7 @@ def step (line : String) : String :=
       | some topic, some a, some b =>
         match model topic a b, monitor a impl with
         | some m, some h => s!"model={m} holds={if h then 1 else 0}"
-        | none, _ => "bad-op"
-        | _, none => "bad-frame: body A is not an encoding of the Spec layout"
+        | _, _ => "bad-op"
       | _, _, _ => "bad-args"
     | _ => "bad-request"
   | _ => "bad-line"
